@@ -17,6 +17,7 @@ import linecache
 import math
 import multiprocessing as mp
 import os
+import re
 import struct
 import sys
 import traceback
@@ -421,6 +422,32 @@ def main():
                          {"kind": "float", "request": rq, "implementation": r, "model": o}, found_input=False)
             break
 
+    # the Lean reference derives a requantisation multiplier from the two scales in exact integer arithmetic
+    # (Spec/Gemmlowp.lean doubleQuotient + quantizeMultiplier); tie it to IEEE division + the real quantise_scale
+    def _me(x):
+        mm, ee = math.frexp(float(x))
+        return int(mm * (1 << 53)), ee - 53
+    qm_reqs, qm_real = [], []
+    for j in range(0, min(len(scales) - 1, 3000), 1):
+        a, b = scales[j], scales[j + 1]
+        if j % 2:
+            a, b = float(np.float32(a)), float(np.float32(b))
+        d = a / b
+        mq, sq = scaling.quantise_scale(d)
+        if mq == 0 or mq == (1 << 31) or sq > 62:
+            continue        # TFLite flushes shift < -31 (Vela shift 63) to zero; Vela's out-of-range convention (0, 16) / unnormalised 2^31: quantise_scale itself is C09's
+        dm, de = _me(d)
+        qm_reqs.append("qmult %d %d %d %d" % (_me(a) + _me(b)))
+        qm_real.append("%d %d %d %d" % (dm, -de, mq, sq))
+    qm_out = ck.model(qm_reqs)
+    n_eval += len(qm_reqs)
+    for rq, o, r in zip(qm_reqs, qm_out, qm_real):
+        if o != r:
+            ck.violation(f"Lean exact double quotient / QuantizeMultiplier disagrees with IEEE division + scaling.quantise_scale: {rq}: implementation {r}, Lean {o}",
+                         {"kind": "qmult", "request": rq, "implementation": r, "lean": o}, found_input=False)
+            break
+    ck.count("scale_quotient_multiplier_cross_checks", len(qm_reqs))
+
     # ---------------- B. tables through the real graph-optimiser functions ------------------------------------
     captured = []
     orig_qs = scaling.quantise_scale
@@ -434,9 +461,10 @@ def main():
     tgo.quantise_scale = qs_wrap
     lutmod.quantise_scale = qs_wrap
 
-    def qparams(scale, zp, dt, zt):
+    def qparams(scale, zp, dt, zt, st=None):
         q = QuantizationParameters()
-        q.scale_f32 = np.float32(scale)
+        # tflite_reader delivers scales as np.float32 scalars; unit tests / API callers use Python floats
+        q.scale_f32 = (st or np.float32)(scale)
         q.zero_point = zt(zp)
         bits = 16 if dt == DataType.int16 else 8
         q.quant_min = 0 if dt == DataType.uint8 else -(1 << (bits - 1))
@@ -469,22 +497,113 @@ def main():
             return canon_exc(e), None, list(captured), f"{type(e).__name__}: {e} at {os.path.basename(tb.filename)}:{tb.lineno} `{(tb.line or '').strip()}`"
 
     ZTS = [("int", int), ("np.int64", np.int64)]
+    STS = [("np.float32", np.float32), ("float", float)]
     ntab = 140 if not th else 1500
+
+    def dbl_me(x):
+        """positive finite double -> (m, e) with x = m * 2^e exactly"""
+        mm, ee = math.frexp(float(x))
+        return int(mm * (1 << 53)), ee - 53
+
+    # ---- Quantize folding: full code sweeps for scale pairs whose ratio is not representable in float32 (rounding ties
+    #      of the folded constant are decided by the low bits of the multiplier, i.e. by HOW the scale quotient is computed)
+    def quant_sweeps(kind):
+        if kind == "quant16":
+            pairs = [(5 / 32767, 6 / 32767), (10 / 32767, 0.000123), (3 / 32767, 7 / 32767),
+                     (rng.randrange(1, 60) / 32767, rng.randrange(1, 60) / 32767)]
+            pairs += [(rng.randrange(1, 200) / 32767, rng.randrange(1, 200) / 32767) for _ in range(40 if th else 4)]
+            return [dict(si=a, so=b, zi=0, zo=0, sweep=True) for a, b in pairs]
+        pairs = [(5 / 127, 6 / 127), (0.1, 0.3), (0.05, 0.07), (rng.randrange(1, 40) / 255, rng.randrange(1, 40) / 255)]
+        pairs += [(rng.randrange(1, 99) / 255, rng.randrange(1, 99) / 255) for _ in range(40 if th else 4)]
+        return [dict(si=a, so=b, zi=rng.randrange(-128, 128), zo=rng.randrange(-128, 128), sweep=True) for a, b in pairs]
+
+    # ---- sigmoid / tanh: output quantisations other than the canonical 1/128, 1/256 and input scales that reach the
+    #      saturated tails; "tie probes" put the unrounded value of one entry 3e-4 .. 3e-2 away from a rounding tie, so
+    #      that a relative change of ~1e-3 of the function value at that code flips the entry (still judged by Lean Float)
+    def real_fn(kind, x):
+        if kind == "tanh":
+            return math.tanh(x)
+        return 0.0 if x <= -8 else (1.0 if x >= 8 else 1 / (1 + math.exp(-x)))
+
+    def act_plan(kind, dt, probe):
+        lo, hi = (0, 255) if dt == DataType.uint8 else (-128, 127)
+        mid = (lo + hi + 1) // 2
+        std_zo = mid if kind == "tanh" else lo
+        inv = (128.0 if kind == "tanh" else 256.0)
+        plan = {}
+        if rng.random() < 0.6 or probe:
+            plan["si"] = math.exp(rng.uniform(math.log(0.033), math.log(0.3)))          # reaches |x| >= 4 (tanh) / 8 (sigmoid)
+            plan["zi"] = rng.choice([lo, hi, mid, rng.randrange(lo, hi + 1)])
+        r = rng.random()
+        if r < 0.3:
+            plan["so"], plan["zo"] = 1 / inv, std_zo
+        elif r < 0.8:
+            plan["so"] = 1 / rng.uniform(inv * 0.7, inv * 1.1)
+            plan["zo"] = max(lo, min(hi, std_zo + rng.choice([0, 0, -1, 1, -2, 2, rng.randrange(-20, 21)])))
+        if probe:
+            si32 = float(np.float32(plan["si"]))
+            zi = plan["zi"]
+            cut = 4.0 if kind == "tanh" else 8.0
+            cands = [x for x in range(lo, hi + 1) if abs(si32 * (x - zi)) >= (cut if rng.random() < 0.7 else 1.0)]
+            if kind == "sigmoid":
+                cands = [x for x in cands if si32 * (x - zi) > 0] or cands
+            for _ in range(20):
+                if not cands:
+                    break
+                x = rng.choice(cands)
+                y = real_fn(kind, si32 * (x - zi))
+                zo = max(lo, min(hi, std_zo + rng.choice([0, 0, -1, 1, rng.randrange(-20, 21)])))
+                eps = rng.choice([-1, 1]) * math.exp(rng.uniform(math.log(3e-4), math.log(3e-2)))
+                if y > 0:
+                    k = rng.randrange(max(zo + 40, lo), hi)          # rounds to k or k+1 <= hi: not saturated
+                    v = k + 0.5 + eps
+                else:
+                    k = rng.randrange(lo + 1, min(zo - 40, hi) + 1) if zo - 40 > lo else None
+                    if k is None:
+                        continue
+                    v = k - 0.5 - eps
+                if y == 0 or (v - zo) * y <= 0:
+                    continue
+                plan["so"], plan["zo"] = y / (v - zo), zo
+                plan["probe"] = {"code": x, "unrounded": v}
+                break
+        return plan
     tab_cases = []      # dict(kind, cfg, real_status, real_values, model_req, chk_req, detail)
     for kind in ("lrelu", "hswish", "quant8", "quant16", "rsqrt", "sigmoid", "tanh"):
-        for i in range(ntab if kind not in ("rsqrt",) else ntab // 2):
+        nk = ntab if kind not in ("rsqrt",) else ntab // 2
+        specials = quant_sweeps(kind) if kind in ("quant8", "quant16") else []
+        nprobe = (60 if not th else 600) if kind in ("sigmoid", "tanh") else 0
+        for i in range(nk + len(specials) + nprobe):
             dt = DataType.int8 if (kind in ("rsqrt", "quant8") or rng.random() < 0.6) else DataType.uint8
             if kind == "quant16":
                 dt = DataType.int16
             sg = 0 if dt == DataType.uint8 else 1
             ztn, zt = ZTS[i % 2]
+            stn, sty = STS[(i // 2) % 2] if kind in ("quant8", "quant16") else STS[0]
             si, so = rscale(), rscale()
             if kind == "quant16":
                 zi = zo = 0 if rng.random() < 0.7 else rng.randrange(-50, 50)
             else:
                 zi, zo = rzp(dt), rzp(dt)
-            cfg = {"kind": kind, "dtype": str(dt), "ifm_scale": float(np.float32(si)), "ofm_scale": float(np.float32(so)), "zp_in": zi, "zp_out": zo,
-                   "zero_point_type": ztn}
+            plan = {}
+            if i >= nk and specials:
+                plan = specials[i - nk]
+                if i - nk < 3:
+                    stn, sty = STS[0]            # the named pairs always with reader-style np.float32 scales
+                    ztn, zt = ZTS[1]
+            elif kind in ("sigmoid", "tanh"):
+                plan = act_plan(kind, dt, probe=(i >= nk))
+            si, so, zi, zo = plan.get("si", si), plan.get("so", so), plan.get("zi", zi), plan.get("zo", zo)
+            cfg = {"kind": kind, "dtype": str(dt), "ifm_scale": float(sty(si)), "ofm_scale": float(sty(so)), "zp_in": zi, "zp_out": zo,
+                   "zero_point_type": ztn, "scale_type": stn}
+            if "probe" in plan:
+                cfg["tie_probe"] = plan["probe"]
+                ck.count(f"table_{kind}_tie_probe")
+            if kind in ("sigmoid", "tanh"):
+                lo_, hi_ = (0, 255) if dt == DataType.uint8 else (-128, 127)
+                reach = max(abs(float(np.float32(si)) * (lo_ - zi)), abs(float(np.float32(si)) * (hi_ - zi)))
+                ck.count(f"table_{kind}_reaches_saturated_tail" if reach >= (4 if kind == "tanh" else 8) else f"table_{kind}_inside_tails_only")
+                ck.count(f"table_{kind}_canonical_output_scale" if float(np.float32(so)) in (1 / 128, 1 / 256) else f"table_{kind}_other_output_scale")
             case = {"kind": kind, "cfg": cfg, "sg": sg}
             if kind == "lrelu":
                 alpha = rng.choice([0.01, 0.1, 0.2, 0.3, 0.5, 0.9, 1.5, -0.5, -1.0]) if rng.random() < 0.5 else rng.uniform(-1.0, 2.0)
@@ -526,13 +645,19 @@ def main():
             elif kind in ("quant8", "quant16"):
                 lo, hi = (-128, 127) if kind == "quant8" else (I16MIN, I16MAX)
                 n = 48
-                vals = [lo, hi, 0, lo + 1, hi - 1] + [rng.randrange(lo, hi + 1) for _ in range(n - 5)]
-                cfg["values"] = vals
+                if plan.get("sweep"):
+                    vals = list(range(lo, hi + 1))            # every code of the type
+                    cfg["values"] = f"all {hi - lo + 1} codes {lo}..{hi}"
+                    ck.count(f"table_{kind}_full_code_sweep")
+                else:
+                    vals = [lo, hi, 0, lo + 1, hi - 1] + [rng.randrange(lo, hi + 1) for _ in range(n - 5)]
+                    cfg["values"] = vals
+                case["vals"] = vals
 
-                def f(dt=dt, si=si, zi=zi, so=so, zo=zo, zt=zt, vals=vals):
-                    ifm = create_const_tensor("c", [len(vals)], dt, vals, quantization=qparams(si, zi, dt, zt))
+                def f(dt=dt, si=si, zi=zi, so=so, zo=zo, zt=zt, vals=vals, st=sty):
+                    ifm = create_const_tensor("c", [len(vals)], dt, vals, quantization=qparams(si, zi, dt, zt, st))
                     ofm = Tensor([len(vals)], dt, "out")
-                    ofm.quantization = qparams(so, zo, dt, zt)
+                    ofm.quantization = qparams(so, zo, dt, zt, st)
                     op = Operation(Op.Quantize, "q")
                     op.add_input_tensor(ifm)
                     op.set_output_tensor(ofm)
@@ -546,6 +671,9 @@ def main():
                     case["model_req"] = f"lut quant {lo} {hi} {zi} {zo} {m_} {sh_} " + " ".join(map(str, vals))
                     case["chk_prefix"] = f"lutchk quant {lo} {hi} {zi} {zo} {m_} {sh_} " + " ".join(map(str, vals))
                     cfg["captured"] = cap[:1]
+                # reference with the multiplier derived in Lean from the DOUBLE quotient of the two scale values
+                (m1, e1), (m2, e2) = dbl_me(sty(si)), dbl_me(sty(so))
+                case["chk2_prefix"] = f"lutchk quantf {lo} {hi} {zi} {zo} {m1} {e1} {m2} {e2} " + " ".join(map(str, vals))
             elif kind == "rsqrt":
                 def f(dt=dt, si=si, zi=zi, so=so, zo=zo, zt=zt):
                     return lutmod.create_lut_rsqrt_int8_op(stub(Op.Rsqrt, dt, si, zi, so, zo, zt))
@@ -581,6 +709,10 @@ def main():
         if "chk_prefix" in c and c["status"] == "ok":
             c["ci"] = len(treqs)
             treqs.append(c["chk_prefix"] + " " + " ".join(map(str, c["real"])))
+        c["c2i"] = None
+        if "chk2_prefix" in c and c["status"] == "ok":
+            c["c2i"] = len(treqs)
+            treqs.append(c["chk2_prefix"] + " " + " ".join(map(str, c["real"])))
         c["di"] = None
         if "dist_req" in c:
             c["di"] = len(treqs)
@@ -629,6 +761,23 @@ def main():
                 ck.violation(f"{kind} table has an entry outside [{lo},{hi}]", {"kind": "table", **cfg, "table": c["real"]})
             continue
         # integer tables
+        if c.get("c2i") is not None:
+            chk2 = touts[c["c2i"]]
+            verdict2 = chk2.split(" ")[0]
+            ck.count(f"table_{kind}_reference_from_scales_{'ok' if verdict2 == '1' else ('na' if verdict2 == 'na' else 'reject')}")
+            if verdict2 == "0" and (kind, "ref2") not in tab_reported:
+                tab_reported.add((kind, "ref2"))
+                nbad = None
+                mref = re.search(r"index (\d+) expected (-?\d+) got (-?\d+) mult (-?\d+) shift (-?\d+)", chk2)
+                det = ""
+                if mref:
+                    j = int(mref.group(1))
+                    det = (f": constant {c['vals'][j]} folds to {mref.group(3)}, reference {mref.group(2)} (reference multiplier {mref.group(4)}, "
+                           f"shift {mref.group(5)}; multiplier used by the code {cfg.get('captured')})")
+                ck.violation(f"optimise_quantize: folded constant differs from the TFLite reference Requantize whose multiplier is "
+                             f"QuantizeMultiplier(double(ifm_scale) / double(ofm_scale)){det}; {cfg['dtype']} scales {cfg['ifm_scale']!r} -> {cfg['ofm_scale']!r} "
+                             f"passed as {cfg['scale_type']}, zero points {cfg['zp_in']} -> {cfg['zp_out']}",
+                             {"kind": "table", **cfg, "reference_verdict": chk2[:300], "implementation_table": c["real"][:512]})
         same = (c["status"] == "ok" and model_ok and c["real"] == model_vals) or (c["status"] != "ok" and not model_ok and c["status"] == mout)
         if same:
             if chk is not None and chk not in ("1", "na"):
@@ -636,7 +785,7 @@ def main():
                 if (kind, "ref") not in tab_reported:
                     tab_reported.add((kind, "ref"))
                     ck.violation(f"{kind} table differs from the Lean reference kernel ({chk}) although model and code agree",
-                                 {"kind": "table", **cfg, "reference_verdict": chk, "table": c["real"]})
+                                 {"kind": "table", **cfg, "reference_verdict": chk, "table": c["real"][:512]})
             if chk is not None:
                 ck.count(f"table_{kind}_reference_{'ok' if chk == '1' else ('na' if chk == 'na' else 'reject')}")
             continue
@@ -644,18 +793,8 @@ def main():
         key = None
         what = None
         replay = {"kind": "table", **cfg, "implementation_status": c["status"], "implementation_error": c["detail"],
-                  "implementation_table": c.get("real"), "model": mout[:1500], "reference_verdict": chk}
-        if kind == "hswish" and c["status"] == "err:overflow" and "relu_value + (1 << 15)" in (c["detail"] or "") and model_ok:
-            key = "hardswish-lut-np-int16-overflow"
-            what = (f"convert_hardswish_to_lut raises {c['detail']} for an ordinary {cfg['dtype']} HARD_SWISH (ifm scale {cfg['ifm_scale']}, "
-                    f"relu shift {cfg['relu_shift']} < 31); the model (unbounded ints, = TFLite reference) yields a table")
-        elif kind in ("quant8", "quant16") and cfg["zero_point_type"] == "int" and model_ok:
-            key = "optimise-quantize-np-zero-point-wrap"
-            j = next((j for j, (a, b) in enumerate(zip(c.get("real") or [], model_vals)) if a != b), None)
-            what = (f"optimise_quantize with a Python-int zero point computes `val - zero_point` and `x * (1 << left_shift)` in the tensor's own "
-                    f"{cfg['dtype']} type: " + (f"constant {cfg['values'][j]} folds to {c['real'][j]}, reference {model_vals[j]}" if j is not None
-                                                else f"{c['status']} {c['detail']}") + f" (scales {cfg['ifm_scale']}->{cfg['ofm_scale']}, zp {cfg['zp_in']}->{cfg['zp_out']})")
-        else:
+                  "implementation_table": (c.get("real") or [])[:512], "model": mout[:1500], "reference_verdict": chk}
+        if True:
             j = None
             if c["status"] == "ok" and model_ok:
                 j = next((j for j, (a, b) in enumerate(zip(c["real"], model_vals)) if a != b), None)
@@ -683,7 +822,8 @@ def main():
         "distinct_nontrivial": n_fp_nontrivial + n_tab_nontrivial,
         "rule": "fp case = (function, operand values) evaluated by model, reference and the real function under each operand typing; "
                 "non-trivial when the model accepts it and a data operand is outside {-1,0,1}; distinct by (function, values). "
-                "table case = one (kind, dtype, scales, zero points, alpha, zero-point type) configuration, 256 entries (48 constants for Quantize); "
+                "table case = one (kind, dtype, scales, scale type, zero points, alpha, zero-point type) configuration, 256 entries (48 constants for Quantize, "
+                "every code of the type for the Quantize sweep pairs); "
                 "distinct by the model request (multipliers, shifts, zero points)",
         "fp_distinct_requests": len(reqs),
         "fp_disagreements": len(fp_disagree),
